@@ -546,7 +546,9 @@ Proof.
       apply (pm_cap prom_nq p s t Hin Een Er).
   - (* officers *)
     unfold hl_off in Hx. apply in_flat_map in Hx as [pt [Hpt Hx]].
-    assert (Ho : officer pt) by (unfold officer; cbn [In] in Hpt; destruct Hpt as [<-|[<-|[<-|[<-|[]]]]]; auto).
+    assert (Ho : officer pt).
+    { unfold officer. cbn [In] in Hpt.
+      destruct Hpt as [<-|[<-|[<-|[<-|[]]]]]; [left|right; left|right; right; left|right; right; right]; reflexivity. }
     destruct (officer_lt pt Ho) as (H7 & Hnz & Hr).
     unfold hl_off_pt in Hx. apply in_flat_map in Hx as [from [Hf Hx]].
     apply (sq_list_in _ from (piece_word_lt b c pt)) in Hf. apply (piece_bit p pt from Hnz) in Hf as [Hf Hat].
